@@ -123,11 +123,13 @@ impl<'a> Tr<'a> {
         let rt = self.ret_ty.clone();
         join(&v.ty, &rt).map_err(|m| format!("return value: {}", m))?;
         let mut comps = vec![];
+        let _ = env;
         if self.mut_self {
-            comps.push(env.get("self").map(|x| x.coq.clone()).unwrap_or_else(|| "self'".into()));
+            comps.push(self.self_coq.clone());
         }
-        for p in self.mut_params.clone() {
-            comps.push(env.get(&p).map(|x| x.coq.clone()).ok_or_else(|| format!("`&mut` parameter `{}` not in scope at return", p))?);
+        // the parameters' own Coq names: assignments rebind exactly these names, a shadowing local gets another one
+        for c in self.mut_param_coq.clone() {
+            comps.push(c);
         }
         if rt != Ty::Unit {
             comps.push(v.s);
@@ -146,8 +148,8 @@ impl<'a> Tr<'a> {
     }
 
     pub fn read_alias(&self, a: &Alias, env: &Env, at: &Expr) -> R<Val> {
-        let rv = env.get(&a.root).ok_or_else(|| unsupported(at, "alias root out of scope"))?;
-        let base = Val { s: rv.coq.clone(), ty: rv.ty.clone() };
+        let _ = env;
+        let base = Val { s: a.root_coq.clone(), ty: a.root_ty.clone() };
         if a.arms.len() == 1 && a.arms[0].0 == "_" {
             return self.read_path(&base, &a.arms[0].1, at);
         }
@@ -178,8 +180,11 @@ impl<'a> Tr<'a> {
     /// `let root := <root with path := new> in rest` (through the alias if root is one)
     pub fn write_place(&mut self, root: &str, path: &[Member], env: &Env, new: &str, rest: &str, at: &Expr) -> R<String> {
         let v = env.get(root).cloned().ok_or_else(|| unsupported(at, &format!("assignment to `{}` which is not a local variable", root)))?;
+        if !v.mutable && v.alias.is_none() {
+            return Err(unsupported(at, &format!("write to `{}`, which is not declared `mut`: in Rust this is a write through a reference binding (destructured `&mut`, default binding mode), which is not modelled", root)));
+        }
         if let Some(a) = &v.alias {
-            let rv = env.get(&a.root).cloned().ok_or_else(|| unsupported(at, "alias root out of scope"))?;
+            let rv = Var { coq: a.root_coq.clone(), ty: a.root_ty.clone(), alias: None, mutable: true };
             let base = Val { s: rv.coq.clone(), ty: rv.ty.clone() };
             let upd = if a.arms.len() == 1 && a.arms[0].0 == "_" {
                 let mut full = a.arms[0].1.clone();
@@ -204,24 +209,24 @@ impl<'a> Tr<'a> {
 
     /// the variables really mutated by assignments to `names` (aliases resolved to their roots), innermost bindings, in env order
     pub fn mutated_vars(&self, names: &std::collections::BTreeSet<String>, env: &Env) -> Vec<(String, Var)> {
+        // Coq names of the variables written (an alias writes its root)
         let mut real: std::collections::BTreeSet<String> = Default::default();
         for n in names {
-            match env.get(n) {
-                Some(v) => match &v.alias {
+            if let Some(v) = env.get(n) {
+                match &v.alias {
                     Some(a) => {
-                        real.insert(a.root.clone());
+                        real.insert(a.root_coq.clone());
                     }
                     None => {
-                        real.insert(n.clone());
+                        real.insert(v.coq.clone());
                     }
-                },
-                None => {}
+                }
             }
         }
         let mut out: Vec<(String, Var)> = vec![];
-        for (n, _) in env.vars.iter() {
-            if real.contains(n) && !out.iter().any(|(x, _)| x == n) {
-                out.push((n.clone(), env.get(n).unwrap().clone()));
+        for (n, v) in env.vars.iter() {
+            if v.alias.is_none() && real.contains(&v.coq) && !out.iter().any(|(_, x)| x.coq == v.coq) {
+                out.push((n.clone(), v.clone()));
             }
         }
         out
@@ -286,7 +291,7 @@ impl<'a> Tr<'a> {
                     },
                 };
                 // the receiver of the call being built is a place that is read by the call itself
-                let is_recv = i == 0 && matches!(e, Expr::MethodCall(_));
+                let is_recv = i == 0 && matches!(e, Expr::MethodCall(_)) && self.recv_stays_place(e, env);
                 if !trivial && !is_recv {
                     let v = self.pure(c, env, None)?;
                     let (env2, rn, cn) = self.bind_tmp(env, &v);
@@ -306,6 +311,28 @@ impl<'a> Tr<'a> {
         k(self, v)
     }
 
+    /// the receiver of this method call must stay a place (a `&mut self` callee or a built-in mutating method); every other
+    /// receiver is a value that Rust evaluates BEFORE the arguments
+    fn recv_stays_place(&mut self, e: &Expr, env: &Env) -> bool {
+        if let Expr::MethodCall(m) = e {
+            let n = m.method.to_string();
+            if n == "get_mut" {
+                return true;
+            }
+            if (n == "next" || n == "last") && m.args.is_empty() {
+                if let Ok(r) = self.pure(&m.receiver, env, None) {
+                    if matches!(r.ty, Ty::Range(_)) {
+                        return true;
+                    }
+                }
+            }
+            if let Ok(Some((f, _))) = self.resolve_effectful(e, env) {
+                return f.self_kind == SelfKind::Mut;
+            }
+        }
+        false
+    }
+
     fn resolve_effectful(&mut self, e: &Expr, env: &Env) -> R<Option<(FnInfo, Option<Val>)>> {
         match e {
             Expr::MethodCall(m) => {
@@ -316,7 +343,13 @@ impl<'a> Tr<'a> {
                 if let Ty::Adt(n) = &recv.ty {
                     let name = m.method.to_string();
                     let fs = self.find_fns(Some(n), &name);
+                    if self.inst_traits.contains_key(n) {
+                        // a value of an instantiated type parameter: resolved (by its trait bounds) in method_call only
+                        return Ok(None);
+                    }
+                    let fs: Vec<FnInfo> = if fs.len() > 1 && fs.iter().filter(|f| f.trait_name.is_none()).count() == 1 { fs.into_iter().filter(|f| f.trait_name.is_none()).collect() } else { fs };
                     if fs.len() == 1 {
+                        self.check_not_shadowed(&fs[0], e)?;
                         return Ok(Some((fs[0].clone(), Some(recv))));
                     }
                 }
@@ -332,7 +365,8 @@ impl<'a> Tr<'a> {
                     if env.get(&segs[0]).is_some() {
                         return Ok(None);
                     }
-                    let fs = self.find_fns(None, &segs[0]);
+                    let local_def = self.t.file_defs.get(&self.cur_file).map(|d| d.fns.contains(&segs[0])).unwrap_or(false);
+                    let fs: Vec<FnInfo> = self.find_fns(None, &segs[0]).into_iter().filter(|f| !local_def || f.file == self.cur_file).collect();
                     return Ok(if fs.len() == 1 { Some((fs[0].clone(), None)) } else { None });
                 }
                 if segs.len() == 2 || segs.len() == 3 {
@@ -368,6 +402,50 @@ impl<'a> Tr<'a> {
                 }
             }
         }
+        // builtin: `it.last()` on a value whose type has a configured `Iterator::next`: a driver over fuel
+        if let Expr::MethodCall(m) = e {
+            if m.method == "last" && m.args.is_empty() {
+                if let Ok(recv) = self.pure(&m.receiver, env, None) {
+                    if let Ty::Adt(n) = &recv.ty {
+                        let nf: Vec<FnInfo> = self.find_fns(Some(n), "next").into_iter().filter(|f| f.self_kind == SelfKind::Mut && f.params.is_empty() && !f.has_mut_params()).collect();
+                        if nf.len() == 1 {
+                            let f = nf[0].clone();
+                            let item = match &f.ret {
+                                Ty::Option(t) => (**t).clone(),
+                                _ => return Err(unsupported(e, "`last()` on a type whose `next` does not return Option")),
+                            };
+                            if !self.fuel {
+                                self.needs_fuel = true;
+                                return Err(unsupported(e, "`last()` (retry with fuel)"));
+                            }
+                            self.loop_counter += 1;
+                            let id = format!("{}_last{}", self.fn_coq, self.loop_counter);
+                            let st = self.t.coq_ty(&recv.ty)?;
+                            let it = self.t.coq_ty(&item)?;
+                            let inner_fuel = match self.t.fuel_consts.get(&f.key) {
+                                Some(c) => c.clone(),
+                                None => "fuel_".to_string(),
+                            };
+                            let step = if f.fuel {
+                                format!("match {} {} it_ with\n| None => None\n| Some (it1_, None) => Some acc_\n| Some (it1_, Some v_) => {} fuel_ it1_ (Some v_)\nend", f.coq, inner_fuel, id)
+                            } else {
+                                format!("match {} it_ with\n| (it1_, None) => Some acc_\n| (it1_, Some v_) => {} fuel_ it1_ (Some v_)\nend", f.coq, id)
+                            };
+                            self.aux_defs.push(format!(
+                                "Fixpoint {id} (fuel0_ : nat) (it_ : {st}) (acc_ : option {it}) {{struct fuel0_}} : option (option {it}) :=\nmatch fuel0_ with\n| O => None\n| Datatypes.S fuel_ =>\n{step}\nend.",
+                                id = id,
+                                st = st,
+                                it = it,
+                                step = step
+                            ));
+                            let r = self.fresh("lst");
+                            let rest = k(self, Val { s: r.clone(), ty: Ty::Option(Box::new(item)) })?;
+                            return Ok(Some(format!("match {} {} {} None with\n| Some {} =>\n{}\n| None => None\nend", id, self.fuel_var, recv.s, r, rest)));
+                        }
+                    }
+                }
+            }
+        }
         let (f, recv) = match self.resolve_effectful(e, env)? {
             Some(x) => x,
             None => return Ok(None),
@@ -379,7 +457,8 @@ impl<'a> Tr<'a> {
             self.needs_fuel = true;
             return Err(unsupported(e, &format!("call of the fuelled function `{}` (retry with fuel)", f.key)));
         }
-        if !f.assoc_params.is_empty() || !f.const_generics.is_empty() {
+        let inherited = self.inherited_assoc(&f, env);
+        if (!f.assoc_params.is_empty() && inherited.is_none()) || !f.const_generics.is_empty() {
             return Err(unsupported(e, &format!("effectful call of `{}`, which has const generic / associated-constant parameters", f.key)));
         }
         let (recv_expr, args): (Option<&Expr>, Vec<&Expr>) = match e {
@@ -389,9 +468,15 @@ impl<'a> Tr<'a> {
         };
         let mut a: Vec<String> = vec![];
         if f.fuel {
-            a.push(self.fuel_var.clone());
+            a.push(match self.t.fuel_consts.get(&f.key) {
+                Some(c) => c.clone(),
+                None => self.fuel_var.clone(),
+            });
         }
         a.extend(self.mvar_args(&f.mvars, env, e)?);
+        if let Some(inh) = inherited {
+            a.extend(inh);
+        }
         let mut writebacks: Vec<(String, Vec<Member>)> = vec![];
         let mut args = args;
         if f.self_kind != SelfKind::None {
@@ -462,6 +547,9 @@ impl<'a> Tr<'a> {
 
     /// `loop { body }` / `while cond { body }`: a local fix over fuel; the variables assigned in the body are its arguments
     pub fn loop_k(&mut self, cond: Option<&Expr>, body: &Block, env: &Env, at: &Expr, k: K) -> R<String> {
+        if !self.loops.is_empty() {
+            return Err(unsupported(at, "a loop nested inside another loop (or inside an unrolled `for`)"));
+        }
         if !self.fuel {
             self.needs_fuel = true;
             return Err(unsupported(at, "loop (retry with fuel)"));
@@ -506,7 +594,12 @@ impl<'a> Tr<'a> {
             let c2 = cont.clone();
             let body_s = self.stmts_k(&body.stmts, env, None, &|_tr, _v| Ok(c2.clone()))?;
             let need_after = cond.is_some() || body_s.contains(&brk);
-            let after = if need_after { k(self, unit())? } else { String::new() };
+            let frame = self.loops.pop();
+            let after = if need_after { k(self, unit()) } else { Ok(String::new()) };
+            if let Some(f) = frame {
+                self.loops.push(f);
+            }
+            let after = after?;
             let inner = match cond {
                 Some(c) => {
                     let cv = self.pure(c, env, Some(&Ty::Bool))?;
@@ -614,7 +707,12 @@ impl<'a> Tr<'a> {
                     ty = join(&ty, &v.ty).map_err(|m| unsupported(init, &m))?;
                     aarms.push((p.clone(), path));
                 }
-                env2.push(&name, Var { coq: format!("<alias {}>", name), ty, alias: Some(Alias { scrut: scrut.clone(), arms: aarms, root: root.unwrap() }) });
+                let rname = root.unwrap();
+                let rv = env.get(&rname).unwrap().clone();
+                if !rv.mutable {
+                    return Err(unsupported(init, &format!("`&mut` of `{}`, which is not declared `mut` (a reference binding)", rname)));
+                }
+                env2.push(&name, Var { coq: format!("<alias {}>", name), ty, alias: Some(Alias { scrut: scrut.clone(), arms: aarms, root: rname, root_coq: rv.coq.clone(), root_ty: rv.ty.clone() }), mutable: true });
             } else if none_ref {
                 let mut ty = Ty::Infer;
                 let mut s = format!("(match {} with", scrut);
